@@ -88,7 +88,39 @@ def mutate(draw, doc, spec, A, parse_value):
         xs = [n for n, _ in nodes if isinstance(n, cls)]
         return draw(st.sampled_from(xs)) if xs else None
 
-    k = draw(st.integers(0, 24))
+    k = draw(st.integers(0, 25))
+    if k == 25:
+        # a nullable variable as an *item* of a list literal whose items are non-null: never allowed, whatever default the
+        # enclosing argument declares (a list entry is a position of its own, without a default)
+        from vlib.gen import schema as GS
+        parents = selection_parents(doc, spec, A)
+        cands = []
+        for n, _ in nodes:
+            if isinstance(n, A.SelectionSet) and parents.get(id(n)) in spec["types"]:
+                fdefs = {f["name"]: f for f in spec["types"][parents[id(n)]].get("fields") or []}
+                for sel in n.selections:
+                    if isinstance(sel, A.Field) and sel.name.value in fdefs:
+                        for ad in fdefs[sel.name.value].get("args") or []:
+                            t = GS.nullable(GS.parse_t(ad["type"]))
+                            if t[0] == "list" and t[1][0] == "nn" and t[1][1][0] == "named":
+                                cands.append((sel, ad, t[1][1][1]))
+        with_default = [c for c in cands if "default" in c[1]]
+        if cands:
+            sel, ad, item = draw(st.sampled_from(with_default if with_default and draw(st.integers(0, 3)) else cands))
+            ops = [d for d in doc.definitions if isinstance(d, A.OperationDefinition)]
+            for op in ops:
+                if not any(v.variable.name.value == "nvi" for v in op.variable_definitions or []):
+                    op.variable_definitions = list(op.variable_definitions or []) + [
+                        A.VariableDefinition(variable=A.Variable(name=A.Name(value="nvi")), type=A.NamedType(name=A.Name(value=item)))]
+            val = A.ListValue(values=[A.Variable(name=A.Name(value="nvi"))])
+            for a in sel.arguments or []:
+                if a.name.value == ad["name"]:
+                    a.value = val
+                    break
+            else:
+                sel.arguments = list(sel.arguments or []) + [A.Argument(name=A.Name(value=ad["name"]), value=val)]
+            return "nullable-variable-as-non-null-list-item"
+        return None
     if k == 0:  # collide aliases / response keys
         ss = pick(A.SelectionSet)
         fs = [s for s in ss.selections if isinstance(s, A.Field)] if ss else []
